@@ -64,6 +64,9 @@ func (s *DataSemaphore) tryAcquire(metric dag.Metric) bool {
 	tmp := s.processing
 	tmp.Num += metric.Num
 	tmp.Size += metric.Size
+	if tmp.Num < metric.Num || tmp.Size < metric.Size {
+		return false // counter overflow: the request can never fit
+	}
 	if tmp.Num > s.maxProcessing.Num || tmp.Size > s.maxProcessing.Size {
 		return false
 	}
